@@ -107,6 +107,11 @@ type c15state struct {
 	subPair int
 }
 
+// c15digest is what the model remembers of an info besides name and id.
+func c15digest(i services.ServiceInfo) string {
+	return fmt.Sprintf("%s/%s/%d/%s/%s", strings.Join(i.Endpoints, "+"), i.MachineId, i.ProcessId, i.SessionId, i.ObjectUid)
+}
+
 func c15info(name string) services.ServiceInfo {
 	return services.ServiceInfo{Name: name, MachineId: "m", ProcessId: 77, Endpoints: []string{"tcp://other:1"}, SessionId: "s"}
 }
@@ -253,8 +258,13 @@ func (c15) Run(c *core.Case, env *core.Env) {
 					id := pickID(op.X)
 					info := c15info(op.S)
 					info.ServiceId = id
-					ep := fmt.Sprintf("tcp://moved:%d", 1000+a*100+i)
-					info.Endpoints = []string{ep}
+					// every update writes an info nobody else writes
+					u := 1000 + a*100 + i
+					info.Endpoints = []string{fmt.Sprintf("tcp://moved:%d", u)}
+					info.MachineId = fmt.Sprintf("m%d", u)
+					info.ProcessId = uint32(u)
+					info.SessionId = fmt.Sprintf("s%d", u)
+					ep := c15digest(info)
 					h := env.Invoke(a, "update", fmt.Sprintf("%d %s %s", id, op.S, ep))
 					err := proxies[a].UpdateServiceInfo(info)
 					env.Return(h, "", err)
@@ -263,7 +273,7 @@ func (c15) Run(c *core.Case, env *core.Env) {
 					info, err := proxies[a].Service(op.S)
 					out := ""
 					if err == nil {
-						out = fmt.Sprintf("%d:%s@%s", info.ServiceId, info.Name, strings.Join(info.Endpoints, "+"))
+						out = fmt.Sprintf("%d:%s@%s", info.ServiceId, info.Name, c15digest(info))
 					}
 					env.Return(h, out, err)
 				case "list":
@@ -271,7 +281,7 @@ func (c15) Run(c *core.Case, env *core.Env) {
 					l, err := proxies[a].Services()
 					var parts []string
 					for _, i := range l {
-						parts = append(parts, fmt.Sprintf("%d:%s@%s", i.ServiceId, i.Name, strings.Join(i.Endpoints, "+")))
+						parts = append(parts, fmt.Sprintf("%d:%s@%s", i.ServiceId, i.Name, c15digest(i)))
 					}
 					sort.Strings(parts)
 					env.Return(h, strings.Join(parts, ","), err)
@@ -524,7 +534,7 @@ func (c15) PostCheck(c *core.Case, env *core.Env, v *core.Verdict) {
 		case "update":
 			fmt.Sscanf(h.Arg, "%d %s %s", &in.id, &in.name, &in.ep)
 		case "register":
-			in.ep = "tcp://other:1"
+			in.ep = c15digest(c15info(""))
 		}
 		ops = append(ops, porcupine.Operation{ClientId: h.Client, Input: in, Call: h.Call, Output: c15out{h.OK, h.Out}, Return: h.Ret})
 	}
